@@ -8,6 +8,7 @@
 #ifndef GAUSSIANCORRECTION_H
 #define GAUSSIANCORRECTION_H
 
+#include <BayesFilters/SkipFlag.h>
 #include <BayesFilters/GaussianMixture.h>
 #include <BayesFilters/MeasurementModel.h>
 
@@ -49,7 +50,7 @@ protected:
 
 
 private:
-    bool skip_ = false;
+    SkipFlag skip_;
 };
 
 #endif /* GAUSSIANCORRECTION_H */
